@@ -374,7 +374,7 @@ type UintArg struct {
 }
 
 func (a *UintArg) Parse() error {
-	i, e := strconv.ParseUint(string(a.arg), 0, 32)
+	i, e := strconv.ParseUint(string(a.arg), 10, 32)
 	if e != nil {
 		return e
 	}
@@ -388,7 +388,7 @@ type IntArg struct {
 }
 
 func (a *IntArg) Parse() error {
-	i, e := strconv.ParseInt(string(a.arg), 0, 32)
+	i, e := strconv.ParseInt(string(a.arg), 10, 32)
 	if e != nil {
 		return e
 	}
@@ -658,7 +658,7 @@ func (a *LengthArg) Parse() error {
 			case "min":
 				l.Min = true
 			default:
-				i, e := strconv.ParseUint(bs[0], 0, 64)
+				i, e := strconv.ParseUint(bs[0], 10, 64)
 				if e != nil {
 					return e
 				}
@@ -670,7 +670,7 @@ func (a *LengthArg) Parse() error {
 			case "min":
 				l.Min = true
 			default:
-				i, e = strconv.ParseUint(bs[0], 0, 64)
+				i, e = strconv.ParseUint(bs[0], 10, 64)
 				if e != nil {
 					return e
 				}
@@ -680,7 +680,7 @@ func (a *LengthArg) Parse() error {
 			case "max":
 				l.Max = true
 			default:
-				i, e = strconv.ParseUint(bs[1], 0, 64)
+				i, e = strconv.ParseUint(bs[1], 10, 64)
 				if e != nil {
 					return e
 				}
